@@ -169,6 +169,14 @@ the property theorems speak about, for every input. A change to the body changes
 the equality proof stops checking, whatever the tests sample. Variables are identified by declaration
 (slots or canonical names), source positions appear only in comments: renaming locals, moving
 functions or adding comments leaves the programs unchanged (checked for each translator).
+Rewrites that do change the program text need not break the equality proofs, which go through
+simplification lemmas rather than syntactic matching: swapping the independent updates `si += 3` /
+`di += 4` in `base64le.Encode`, reordering two independent validity tests in `normalize`, and
+returning through an extra local in `hashutil.Decode` were each applied to `/repo` and the checks of
+C16, C10 and C15 stayed `OK` (all obligations discharged). A rewrite the proofs do not absorb is
+reported as the brief prescribes: `VIOLATION … no-failing-input-found`, the replay naming the module
+that no longer builds and its first error (`stopped_checking` in the evidence; since the runner
+change of this session the `broken[proof]` line starts with it).
 
 | Go source | regenerated as | equality theorems | cited by |
 |---|---|---|---|
